@@ -38,7 +38,10 @@ def gen(seed, idx, tier):
   feats = {}
   if r.random() < 0.3:
     feats["pile"] = True
-  spec, rejected = scen.pick_model(seed, idx, features=feats, size="s", curated_p=0.25)
+  if sleep and _rng.gen("c17clique", seed, idx).random() < 0.4:
+    # island discovery (sleeping only) over a densely coupled group of trees: its scratch stack sees many more pushes than trees
+    feats.update({"eq_clique": True, "pile": True, "tiny": False, "free": True})
+  spec, rejected = scen.pick_model(seed, idx, features=feats, size="s", curated_p=0.0 if feats.get("eq_clique") else 0.25)
   if sleep:
     spec["opt"]["sleep"] = True
     spec["opt"]["sleep_tolerance"] = float(r.choice([0.02, 0.5]))
